@@ -1,6 +1,10 @@
 package ir
 
 import (
+	"go/constant"
+	"go/token"
+	"go/types"
+
 	"golang.org/x/tools/go/ssa"
 )
 
@@ -17,22 +21,40 @@ type Cut map[Edge]bool
 // blocks themselves included) without using cut edges.
 func Reach(starts []*ssa.BasicBlock, cut Cut) map[*ssa.BasicBlock]bool {
 	seen := map[*ssa.BasicBlock]bool{}
-	var stack []*ssa.BasicBlock
+	type key struct {
+		e   Edge
+		ctx string
+	}
+	done := map[key]bool{}
+	type item struct {
+		b   *ssa.BasicBlock
+		ctx joinCtx
+	}
+	var stack []item
 	for _, s := range starts {
 		if s != nil && !seen[s] {
 			seen[s] = true
-			stack = append(stack, s)
+			stack = append(stack, item{s, nil})
 		}
 	}
 	for len(stack) > 0 {
-		b := stack[len(stack)-1]
+		it := stack[len(stack)-1]
 		stack = stack[:len(stack)-1]
+		b := it.b
+		only := it.ctx.decide(b)
 		for i, s := range b.Succs {
-			if cut[Edge{b, i}] || seen[s] {
+			e := Edge{b, i}
+			if cut[e] || (only >= 0 && only != i) {
 				continue
 			}
+			nctx := it.ctx.enter(b, s)
+			k := key{e, nctx.String()}
+			if done[k] {
+				continue
+			}
+			done[k] = true
 			seen[s] = true
-			stack = append(stack, s)
+			stack = append(stack, item{s, nctx})
 		}
 	}
 	return seen
@@ -100,34 +122,69 @@ func IndexIn(in ssa.Instruction) int {
 // exploration of that path at that instruction (the instruction "absorbs" the
 // path). Each block is entered at most once from its top.
 func Walk(b *ssa.BasicBlock, idx int, cut Cut, visit func(ssa.Instruction) bool) {
-	seenTop := map[*ssa.BasicBlock]bool{}
+	WalkCtx(b, idx, nil, cut, visit)
+}
+
+// WalkCtx is Walk for a start point that was reached through the edge
+// pred -> b (pred may be nil): the values the phis of b take on that edge are
+// known to the exploration.
+func WalkCtx(b *ssa.BasicBlock, idx int, pred *ssa.BasicBlock, cut Cut, visit func(ssa.Instruction) bool) {
+	visited := map[*ssa.BasicBlock]bool{}  // instructions visited from the top
+	absorbed := map[*ssa.BasicBlock]bool{} // a visit stopped the path inside the block
+	type key struct {
+		e   Edge
+		ctx string
+	}
+	done := map[key]bool{}
 	type item struct {
 		b   *ssa.BasicBlock
 		idx int
+		ctx joinCtx
 	}
-	stack := []item{{b, idx}}
-	if idx == 0 {
-		seenTop[b] = true
+	var ctx0 joinCtx
+	if pred != nil {
+		ctx0 = ctx0.enter(pred, b)
 	}
+	stack := []item{{b, idx, ctx0}}
+	first := true
 	for len(stack) > 0 {
 		it := stack[len(stack)-1]
 		stack = stack[:len(stack)-1]
-		stopped := false
-		for i := it.idx; i < len(it.b.Instrs); i++ {
-			if !visit(it.b.Instrs[i]) {
-				stopped = true
-				break
+		partial := first && it.idx > 0
+		first = false
+		if partial || !visited[it.b] {
+			if !partial {
+				visited[it.b] = true
 			}
-		}
-		if stopped {
-			continue
-		}
-		for i, s := range it.b.Succs {
-			if cut[Edge{it.b, i}] || seenTop[s] {
+			stopped := false
+			for i := it.idx; i < len(it.b.Instrs); i++ {
+				if !visit(it.b.Instrs[i]) {
+					stopped = true
+					break
+				}
+			}
+			if stopped {
+				if !partial {
+					absorbed[it.b] = true
+				}
 				continue
 			}
-			seenTop[s] = true
-			stack = append(stack, item{s, 0})
+		} else if absorbed[it.b] {
+			continue
+		}
+		only := it.ctx.decide(it.b)
+		for i, s := range it.b.Succs {
+			e := Edge{it.b, i}
+			if cut[e] || (only >= 0 && only != i) {
+				continue
+			}
+			nctx := it.ctx.enter(it.b, s)
+			k := key{e, nctx.String()}
+			if done[k] {
+				continue
+			}
+			done[k] = true
+			stack = append(stack, item{s, 0, nctx})
 		}
 	}
 }
@@ -139,7 +196,7 @@ func WalkAfter(in ssa.Instruction, cut Cut, visit func(ssa.Instruction) bool) {
 
 // WalkEdge is Walk starting at the target of an edge.
 func WalkEdge(e Edge, cut Cut, visit func(ssa.Instruction) bool) {
-	Walk(e.From.Succs[e.Succ], 0, cut, visit)
+	WalkCtx(e.From.Succs[e.Succ], 0, e.From, cut, visit)
 }
 
 // EdgeDominates reports whether every path from entry to block x uses edge e.
@@ -225,4 +282,326 @@ func LoopExits(h *ssa.BasicBlock) []Edge {
 		}
 	}
 	return out
+}
+
+// joinCtx remembers, for the most recently entered join blocks of the path
+// being explored, through which predecessor they were entered. A later If
+// that tests a phi of such a block (against nil, a constant, or as a boolean)
+// whose value on that incoming edge is known can go only one way. This
+// removes the classic infeasible path through a result variable ("res =
+// errors.New(..); ...; if res != nil") without general path sensitivity.
+type joinEntry struct {
+	j  *ssa.BasicBlock
+	pi int
+}
+
+type joinCtx []joinEntry
+
+const maxJoinCtx = 4
+
+func (c joinCtx) String() string {
+	if len(c) == 0 {
+		return ""
+	}
+	out := make([]byte, 0, 8*len(c))
+	for _, e := range c {
+		out = append(out, byte(e.j.Index), byte(e.j.Index>>8), byte(e.pi), ';')
+	}
+	return string(out)
+}
+
+// enter returns the context after taking the edge p -> s.
+func (c joinCtx) enter(p, s *ssa.BasicBlock) joinCtx {
+	hasPhi := false
+	if len(s.Preds) > 1 && len(s.Instrs) > 0 {
+		_, hasPhi = s.Instrs[0].(*ssa.Phi)
+	}
+	var out joinCtx
+	for _, e := range c {
+		if e.j != s {
+			out = append(out, e)
+		}
+	}
+	if !hasPhi {
+		return out
+	}
+	pi := -1
+	for i, pr := range s.Preds {
+		if pr == p {
+			if pi >= 0 {
+				return out // two edges from the same block: unknown
+			}
+			pi = i
+		}
+	}
+	if pi < 0 {
+		return out
+	}
+	out = append(out, joinEntry{s, pi})
+	if len(out) > maxJoinCtx {
+		out = out[len(out)-maxJoinCtx:]
+	}
+	return out
+}
+
+// decide returns the only feasible successor index of b under the context,
+// or -1.
+func (c joinCtx) decide(b *ssa.BasicBlock) int {
+	if len(c) == 0 || len(b.Instrs) == 0 || len(b.Succs) != 2 {
+		return -1
+	}
+	iff, ok := b.Instrs[len(b.Instrs)-1].(*ssa.If)
+	if !ok {
+		return -1
+	}
+	incoming := func(v ssa.Value) (ssa.Value, bool) {
+		ph, ok := v.(*ssa.Phi)
+		if !ok {
+			return nil, false
+		}
+		for _, e := range c {
+			if e.j == ph.Block() && e.pi < len(ph.Edges) {
+				return ph.Edges[e.pi], true
+			}
+		}
+		return nil, false
+	}
+	ph := func(v ssa.Value) *ssa.Phi { p, _ := v.(*ssa.Phi); return p }
+	cond := iff.Cond
+	neg := false
+	for {
+		u, ok := cond.(*ssa.UnOp)
+		if !ok || u.Op != token.NOT {
+			break
+		}
+		neg = !neg
+		cond = u.X
+	}
+	val := -1 // 1: condition true, 0: false
+	if v, ok := incoming(cond); ok {
+		if k, isC := ConstBool(v); isC {
+			val = 0
+			if k {
+				val = 1
+			}
+		}
+	} else if bo, ok := cond.(*ssa.BinOp); ok && (bo.Op == token.EQL || bo.Op == token.NEQ) {
+		for _, pr := range [][2]ssa.Value{{bo.X, bo.Y}, {bo.Y, bo.X}} {
+			v, ok := incoming(pr[0])
+			if !ok {
+				continue
+			}
+			eq := -1
+			switch {
+			case IsNil(pr[1]):
+				if IsNil(v) {
+					eq = 1
+				} else if KnownNonNil(v) || nonNilOnEdge(v, c, ph(pr[0])) {
+					eq = 0
+				}
+			default:
+				kc, ok1 := pr[1].(*ssa.Const)
+				vc, ok2 := v.(*ssa.Const)
+				if ok1 && ok2 && kc.Value != nil && vc.Value != nil {
+					if constant.Compare(kc.Value, token.EQL, vc.Value) {
+						eq = 1
+					} else {
+						eq = 0
+					}
+				}
+			}
+			if eq >= 0 {
+				val = eq
+				if bo.Op == token.NEQ {
+					val = 1 - eq
+				}
+			}
+		}
+	}
+	if val < 0 {
+		return -1
+	}
+	if neg {
+		val = 1 - val
+	}
+	if val == 1 {
+		return 0
+	}
+	return 1
+}
+
+// KnownNonNil: v is an interface / pointer value that cannot be nil: the
+// result of fmt.Errorf / errors.New, an interface made from a non-pointer
+// value or from the address of a composite literal, an allocation, or a load
+// of a package-level error variable that its package sets once to such a value.
+func KnownNonNil(v ssa.Value) bool {
+	switch x := v.(type) {
+	case *ssa.Call:
+		if f := x.Call.StaticCallee(); f != nil && f.Pkg != nil {
+			full := f.Pkg.Pkg.Path() + "." + f.Name()
+			return full == "fmt.Errorf" || full == "errors.New"
+		}
+	case *ssa.MakeInterface:
+		if _, isPtr := x.X.Type().Underlying().(*types.Pointer); !isPtr {
+			return true
+		}
+		_, isAlloc := x.X.(*ssa.Alloc)
+		return isAlloc
+	case *ssa.Alloc:
+		return true
+	case *ssa.UnOp:
+		if g, ok := x.X.(*ssa.Global); ok && x.Op == token.MUL {
+			return GlobalIsErrSentinel(g)
+		}
+	}
+	return false
+}
+
+// GlobalIsErrSentinel: a package-level variable that the package initialiser
+// sets to a freshly constructed non-nil value and nothing else in its package
+// assigns.
+func GlobalIsErrSentinel(g *ssa.Global) bool {
+	if g.Pkg == nil {
+		return false
+	}
+	init := g.Pkg.Func("init")
+	if init == nil {
+		return false
+	}
+	set := false
+	for _, b := range init.Blocks {
+		for _, in := range b.Instrs {
+			if st, ok := in.(*ssa.Store); ok && st.Addr == ssa.Value(g) && KnownNonNil(st.Val) {
+				set = true
+			}
+		}
+	}
+	if !set {
+		return false
+	}
+	for _, m := range g.Pkg.Members {
+		fn, ok := m.(*ssa.Function)
+		if !ok || fn == init {
+			continue
+		}
+		for _, b := range fn.Blocks {
+			for _, in := range b.Instrs {
+				if st, ok := in.(*ssa.Store); ok && st.Addr == ssa.Value(g) {
+					return false
+				}
+			}
+		}
+	}
+	return true
+}
+
+// ValueAt resolves a phi as seen from block use: if a later If tests a
+// sibling phi of the same join block (against nil / a constant / as a
+// boolean) and use lies behind exactly one outcome of that test, only the
+// incoming edges compatible with that outcome can have led to use; when all
+// of them carry the same value, that value is returned (recursively), else v.
+// Typical: `k, err := helper(); if err != nil { return }; f(k)` after the
+// helper was inlined: k is a phi of (nil, buf.Bytes()), err a phi of
+// (someError, nil); at f(k) the value is buf.Bytes().
+func ValueAt(v ssa.Value, use *ssa.BasicBlock) ssa.Value {
+	for depth := 0; depth < 4; depth++ {
+		ph, ok := v.(*ssa.Phi)
+		if !ok || use == nil {
+			return v
+		}
+		j := ph.Block()
+		fn := j.Parent()
+		feasible := make([]bool, len(ph.Edges))
+		for i := range feasible {
+			feasible[i] = true
+		}
+		for _, b := range fn.Blocks {
+			if len(b.Instrs) == 0 || len(b.Succs) != 2 {
+				continue
+			}
+			if _, ok := b.Instrs[len(b.Instrs)-1].(*ssa.If); !ok {
+				continue
+			}
+			// which outcome of this test leads to use?
+			out := -1
+			for s := 0; s < 2; s++ {
+				if EdgeDominates(fn, Edge{b, s}, use) {
+					out = s
+				}
+			}
+			if out < 0 {
+				continue
+			}
+			for i := range ph.Edges {
+				c := joinCtx{{j, i}}
+				if d := c.decide(b); d >= 0 && d != out {
+					feasible[i] = false
+				}
+			}
+		}
+		var val ssa.Value
+		same := true
+		n := 0
+		for i, e := range ph.Edges {
+			if !feasible[i] {
+				continue
+			}
+			n++
+			if val == nil {
+				val = e
+			} else if val != e {
+				same = false
+			}
+		}
+		if n == 0 || !same || val == nil {
+			return v
+		}
+		v = val
+	}
+	return v
+}
+
+// nonNilOnEdge: the value v that phi p receives on the incoming edge recorded
+// in the context was tested non-nil on the way there (the predecessor block is
+// dominated by the non-nil edge of a test of v).
+func nonNilOnEdge(v ssa.Value, c joinCtx, p *ssa.Phi) bool {
+	if p == nil {
+		return false
+	}
+	for _, e := range c {
+		if e.j != p.Block() || e.pi >= len(e.j.Preds) {
+			continue
+		}
+		pred := e.j.Preds[e.pi]
+		for _, br := range NilBranches(v) {
+			other := br.Other()
+			// block reached only through the non-nil edge?
+			if other.From.Succs[other.Succ] == pred || edgeDominatesRaw(pred.Parent(), other, pred) {
+				return true
+			}
+		}
+	}
+	return false
+}
+
+// edgeDominatesRaw is EdgeDominates over the plain CFG (no join context): used
+// inside the context machinery itself.
+func edgeDominatesRaw(fn *ssa.Function, e Edge, x *ssa.BasicBlock) bool {
+	if len(fn.Blocks) == 0 {
+		return false
+	}
+	seen := map[*ssa.BasicBlock]bool{fn.Blocks[0]: true}
+	stack := []*ssa.BasicBlock{fn.Blocks[0]}
+	for len(stack) > 0 {
+		b := stack[len(stack)-1]
+		stack = stack[:len(stack)-1]
+		for i, s := range b.Succs {
+			if (Edge{b, i}) == e || seen[s] {
+				continue
+			}
+			seen[s] = true
+			stack = append(stack, s)
+		}
+	}
+	return !seen[x]
 }
